@@ -1,26 +1,11 @@
 (* The complete registry: every family's table. *)
 From Coq Require Import ZArith String List Bool.
-<<<<<<< HEAD
 From PushModel Require Import Base.Sx Base.Machine Base.F32 Model.Item Model.State Model.InstrBase Model.Registry Model.Interp
-<<<<<<< HEAD
-  Model.RegistryVec.
-=======
-From PushModel Require Import Base.Sx Base.Machine Base.F32 Model.Item Model.State Model.InstrBase Model.Registry Model.Interp Model.RegistryListIo.
->>>>>>> listio
+  Model.RegistryVec Model.RegistryListIo Model.RegistryGraph.
 Import ListNotations.
 Section All.
   Context {FO : FloatOps}.
-<<<<<<< HEAD
-  Definition full_table : list (string * sem) := tbl_core ++ tbl_bvec ++ tbl_ivec ++ tbl_fvec.
-=======
-  Definition full_table : list (string * sem) := tbl_core ++ tbl_list ++ tbl_io.
->>>>>>> listio
-=======
-  Model.RegistryVec Model.RegistryGraph.
-Import ListNotations.
-Section All.
-  Context {FO : FloatOps}.
-  Definition full_table : list (string * sem) := tbl_core ++ tbl_bvec ++ tbl_ivec ++ tbl_fvec ++ tbl_graph.
->>>>>>> graphi
+  Definition full_table : list (string * sem) :=
+    tbl_core ++ tbl_bvec ++ tbl_ivec ++ tbl_fvec ++ tbl_list ++ tbl_io ++ tbl_graph.
   Definition full_registry : registry := mk_registry full_table.
 End All.
